@@ -111,7 +111,10 @@ fn c06_tw_kernel_state_open_end() {
     let arrival = prev.schedule.departure + d[prev.place.location][target.place.location];
     let feasible = arrival <= target.place.time.end;
 
-    kani::cover!(result.is_none() && arrival + target.place.duration > target.place.time.end, "accepted-service-ends-after-window");
+    kani::cover!(
+        result.is_none() && arrival + target.place.duration > target.place.time.end,
+        "accepted-service-ends-after-window"
+    );
     kani::cover!(result.is_some(), "rejected");
     assert!(result.is_none() == feasible);
     std::mem::forget((route_ctx, constraint, prev, target));
